@@ -1,7 +1,9 @@
 (* C16 — Message sets select exactly the messages RFC 3501 says, or the command fails.
    Property theorems only; every proof is `exact <lemma>` and is followed by Print Assumptions. *)
 From Coq Require Import List NArith Bool.
+From Coq Require Import Sorted.
 From Gluon Require Import Model.SeqSet Proofs.SeqSetProofs.
+From Gluon Require Model.Responders Model.Session Proofs.SetProofs.
 Import ListNotations.
 Open Scope N_scope.
 
@@ -66,3 +68,20 @@ Example C16_uid_example :
   srt [2;5;6;9] /\ impl_uid [2;5;6;9] [(WNum 3, WNum 7); (WStar, WStar)] = Some [5;6;9]
   /\ impl_uid [2;5;6;9] [(WNum 10, WStar)] = Some [].
 Proof. vm_compute. repeat split; reflexivity. Qed.
+
+(* the session model (C01/C02/C05 histories) applies a command to the SET of positions it names: strictly ascending,
+   each once, exactly the numbers written - and two ways of writing one set (3,1 / 1,3 / 1,3,1) address the same
+   messages in the same order, so COPY/MOVE keep the source order whatever the client wrote *)
+Theorem C16_session_set_ascending_once : forall ps, StronglySorted lt (Session.norm_ps ps) /\ (forall q, In q (Session.norm_ps ps) <-> In q ps).
+Proof. intros ps. split; [exact (SetProofs.norm_ps_sorted ps)|exact (SetProofs.norm_ps_in ps)]. Qed.
+Print Assumptions C16_session_set_ascending_once.
+
+Theorem C16_session_same_set_same_messages : forall sn a b, (forall q, In q a <-> In q b) -> Session.msgs_at sn a = Session.msgs_at sn b.
+Proof. exact SetProofs.msgs_at_same_set. Qed.
+Print Assumptions C16_session_same_set_same_messages.
+
+Example C16_session_sets_example :
+  Session.norm_ps [3; 1]%nat = [1; 3]%nat /\ Session.norm_ps [2; 3; 2]%nat = [2; 3]%nat /\
+  Session.msgs_at [Responders.mkSmsg 7 1 []; Responders.mkSmsg 8 2 []; Responders.mkSmsg 9 3 []] [3; 1]%nat = Some [Responders.mkSmsg 7 1 []; Responders.mkSmsg 9 3 []] /\
+  Session.msgs_at [Responders.mkSmsg 7 1 []; Responders.mkSmsg 8 2 []; Responders.mkSmsg 9 3 []] [1; 3; 1]%nat = Some [Responders.mkSmsg 7 1 []; Responders.mkSmsg 9 3 []].
+Proof. exact SetProofs.sets_example. Qed.
